@@ -81,6 +81,90 @@ pub fn is_known(property: &str, signature: &str) -> bool {
     })
 }
 
+/// coverage-guided targets (thorough tier): property -> (cargo-fuzz target, sub-check whose oracle it runs, executions)
+pub fn fuzz_targets(id: &str) -> Vec<(&'static str, &'static str, u64)> {
+    match id {
+        "C02" => vec![("swapstep", "step", 30_000_000)],
+        "C12" => vec![("pinodiff", "modify_liquidity", 6_000_000)],
+        "C13" => vec![("dyntick", "random_sequences", 1_500_000)],
+        "C16" => vec![("tlvfee", "fee_functions", 10_000_000)],
+        "C19" => vec![("mintadmit", "mints", 400_000)],
+        _ => vec![],
+    }
+}
+
+pub enum FuzzOutcome {
+    Clean { executions: u64, corpus: u64, features: u64, wall_s: f64 },
+    Violation(PathBuf),
+    Unavailable(String),
+}
+
+/// One libFuzzer campaign with a fixed number of executions, split over `ctx.threads` jobs.
+pub fn run_fuzz(ctx: &Ctx, target: &str, runs: u64) -> FuzzOutcome {
+    let t0 = Instant::now();
+    let root = verif_root();
+    let fdir = root.join("harness").join("fuzz");
+    let corpus = fdir.join("corpus").join(target);
+    let seeds = fdir.join("seeds").join(target);
+    let _ = std::fs::remove_dir_all(&corpus);
+    let _ = std::fs::create_dir_all(&corpus);
+    let _ = std::fs::create_dir_all(&seeds);
+    let build = std::process::Command::new("cargo").args(["+nightly", "fuzz", "build", target]).current_dir(&fdir).env("CARGO_NET_OFFLINE", "true").output();
+    match build {
+        Ok(o) if o.status.success() => {}
+        Ok(o) => return FuzzOutcome::Unavailable(format!("fuzz build failed: {}", String::from_utf8_lossy(&o.stderr).lines().rev().take(5).collect::<Vec<_>>().join(" | "))),
+        Err(e) => return FuzzOutcome::Unavailable(format!("cannot run cargo fuzz: {e}")),
+    }
+    let scale = ((runs as f64) * ctx.scale) as u64;
+    let jobs = ctx.threads.max(1) as u64;
+    let per = (scale / jobs).max(1000);
+    let seed = (ctx.seed % 1_000_000).max(1);
+    let out = std::process::Command::new("cargo")
+        .args(["+nightly", "fuzz", "run", target, corpus.to_str().unwrap(), seeds.to_str().unwrap(), "--"])
+        .arg(format!("-runs={per}"))
+        .arg(format!("-seed={seed}"))
+        .arg(format!("-jobs={jobs}"))
+        .arg(format!("-workers={jobs}"))
+        .args(["-len_control=0", "-max_len=2048", "-print_final_stats=1", "-timeout=60", "-rss_limit_mb=4096"])
+        .current_dir(&fdir)
+        .env("CARGO_NET_OFFLINE", "true")
+        .env("VERIF_ROOT", &root)
+        .output();
+    let out = match out {
+        Ok(o) => o,
+        Err(e) => return FuzzOutcome::Unavailable(format!("cannot run cargo fuzz: {e}")),
+    };
+    // libFuzzer writes one log per job (fuzz-<n>.log) in the working directory
+    let mut text = String::from_utf8_lossy(&out.stderr).to_string();
+    text.push_str(&String::from_utf8_lossy(&out.stdout));
+    if let Ok(rd) = std::fs::read_dir(&fdir) {
+        for e in rd.flatten() {
+            let n = e.file_name().to_string_lossy().to_string();
+            if n.starts_with("fuzz-") && n.ends_with(".log") {
+                if let Ok(t) = std::fs::read_to_string(e.path()) {
+                    text.push_str(&t);
+                }
+                let _ = std::fs::remove_file(e.path());
+            }
+        }
+    }
+    if let Some(line) = text.lines().find(|l| l.contains("FUZZ-VIOLATION")) {
+        if let Some(p) = line.split("replay=").nth(1) {
+            return FuzzOutcome::Violation(PathBuf::from(p.trim()));
+        }
+    }
+    if !out.status.success() {
+        // a crash without an oracle message (sanitizer report, timeout, OOM): inconclusive for the property, reported as such
+        let tail: Vec<&str> = text.lines().rev().take(12).collect();
+        return FuzzOutcome::Unavailable(format!("fuzzer stopped abnormally: {}", tail.into_iter().rev().collect::<Vec<_>>().join(" | ")));
+    }
+    let num = |key: &str| -> u64 { text.lines().filter(|l| l.contains(key)).filter_map(|l| l.split_whitespace().last().and_then(|x| x.parse::<u64>().ok())).sum() };
+    let executions = num("stat::number_of_executed_units:");
+    let features = text.lines().filter(|l| l.contains(" ft: ")).filter_map(|l| l.split(" ft: ").nth(1).and_then(|x| x.split_whitespace().next()).and_then(|x| x.parse::<u64>().ok())).max().unwrap_or(0);
+    let corpus_n = std::fs::read_dir(&corpus).map(|r| r.count() as u64).unwrap_or(0);
+    FuzzOutcome::Clean { executions, corpus: corpus_n, features, wall_s: t0.elapsed().as_secs_f64() }
+}
+
 fn write_replay(id: &str, f: &Failure) -> PathBuf {
     let dir = verif_root().join("replays");
     let _ = std::fs::create_dir_all(&dir);
@@ -178,6 +262,29 @@ pub fn run_check(ctx: &Ctx, replay: Option<&str>, only: Option<&str>) -> i32 {
             }
         }
     }
+    // 2b. coverage-guided tier (thorough only): same oracles behind byte-level targets
+    let mut fuzz_report = vec![];
+    let mut inconclusive: Option<String> = None;
+    if violation.is_none() && ctx.tier == Tier::Thorough && only.is_none() && std::env::var("VERIF_NO_FUZZ").is_err() {
+        for (target, subn, runs) in fuzz_targets(def.id) {
+            match run_fuzz(ctx, target, runs) {
+                FuzzOutcome::Clean { executions, corpus, features, wall_s } => {
+                    eprintln!("[{}] fuzz/{target}: {executions} executions, corpus {corpus}, {features} features, {wall_s:.0}s", def.id);
+                    fuzz_report.push(json!({"target": target, "oracle_of_sub_check": subn, "executions": executions, "corpus_files": corpus, "features": features, "wall_s": wall_s.round()}));
+                }
+                FuzzOutcome::Violation(p) => {
+                    outln!("violation found by fuzz target {target}");
+                    violation = Some(p);
+                    break;
+                }
+                FuzzOutcome::Unavailable(why) => {
+                    eprintln!("[{}] fuzz/{target}: {why}", def.id);
+                    fuzz_report.push(json!({"target": target, "unavailable": why}));
+                    inconclusive = Some(why);
+                }
+            }
+        }
+    }
     // 3. known findings of this property
     let mut known_lines = vec![];
     for k in load_known() {
@@ -191,6 +298,11 @@ pub fn run_check(ctx: &Ctx, replay: Option<&str>, only: Option<&str>) -> i32 {
     let wall = t0.elapsed().as_secs_f64();
     let mut ev = evidence_json(ctx, &def, &results, &known_lines, wall);
     ev["coverage"]["regression_cases_replayed"] = json!(replayed);
+    if !fuzz_report.is_empty() {
+        let fe: u64 = fuzz_report.iter().filter_map(|f| f["executions"].as_u64()).sum();
+        ev["coverage"]["coverage_guided"] = json!(fuzz_report);
+        ev["coverage"]["evaluations"] = json!(ev["coverage"]["evaluations"].as_u64().unwrap_or(0) + fe);
+    }
     if results.is_empty() {
         // keep the file schema-valid even when a regression case failed before the search started
         ev["coverage"]["evaluations"] = json!(replayed.max(1));
@@ -204,6 +316,10 @@ pub fn run_check(ctx: &Ctx, replay: Option<&str>, only: Option<&str>) -> i32 {
         Some(p) => {
             outln!("VIOLATION property={} replay={}", def.id, p.display());
             1
+        }
+        None if inconclusive.is_some() => {
+            outln!("INCONCLUSIVE property={}: coverage-guided tier did not complete ({}); the generated search held", def.id, inconclusive.unwrap());
+            2
         }
         None => {
             outln!(
